@@ -350,6 +350,8 @@ class ST:
             return self.shape
         if name == "ndim":
             return len(self.shape)
+        if name == "T" and len(self.shape) == 2:
+            return _t(I, self)
         if name == "device":
             return torch.device("cpu")
         if name == "dtype":
